@@ -366,4 +366,6 @@ def evaluate(obs):
 
 
 def run_case(case):
-    return e2e.run_with(case, evaluate)
+    # a transfer that comes to rest unfinished AFTER a cancel was issued has not "finished with the cancellation error": the deadlock
+    # verdict is a violation here then (without a cancel it is C04's business: inconclusive)
+    return e2e.run_with(case, evaluate, liveness=lambda obs: any(e['kind'] == 'cancel.begin' for e in obs.events))
